@@ -374,4 +374,4 @@ def check_sites(F, rep, rule, entries, floor):
 
 def a6(ctx, rep):
     F = ctx.lib
-    check_sites(F, rep, "A6", [PC + "expand_zlib_chunks", PC + "recreated_zlib_chunks"], 40)
+    check_sites(F, rep, "A6", [PC + "expand_zlib_chunks", PC + "recreated_zlib_chunks"], 20)
